@@ -343,6 +343,9 @@ func genHistory(t *Tape, k *Knobs, m mix, n int) []Step {
 		case 18:
 			c := t.Intn(nc)
 			s := st("authz", c, 0, "rt", t.Pick([]string{"token", "id_token token", "id_token"}), "scope", "openid "+pickScopes(t, 0, 20), "nonce", fmt.Sprintf("nonce-%d-abcdefgh", len(steps)))
+			if t.Chance(25) {
+				s.P["preset_at_exp"] = fmt.Sprint(t.Range(20, 5000))
+			}
 			steps = append(steps, s)
 		}
 	}
